@@ -1,7 +1,8 @@
 SPECIFICATION Spec
 CONSTANTS
-  MaxTok = 4
-  Alphabet = {"ident", "delim", "star", "open", "close", "lbrace", "rbrace", "colon", "semi", "atrl", "atdl", "atun", "ws", "comment", "cpname", "cdo", "other"}
+  MaxTok = 6
+  Alphabet = {"ident", "star", "open", "close", "lbrace", "rbrace", "colon", "semi", "atrl", "atdl"}
+  Modes = {TRUE, FALSE}
   Emit = FALSE
   AtDeclEndsAtEOF = TRUE
   StarAloneAtEOF = TRUE
